@@ -14,8 +14,15 @@ impl Linter for LongSentences {
             let word_count = sentence.iter_words().count();
 
             if word_count > 40 {
+                // The flagged text starts at the sentence's first visible token: whitespace that
+                // separates it from the previous sentence (or paragraph) is not part of it.
+                let first = sentence
+                    .iter()
+                    .position(|t| !t.kind.is_whitespace())
+                    .unwrap_or(0);
+
                 output.push(Lint {
-                    span: sentence.span().unwrap(),
+                    span: sentence[first..].span().unwrap(),
                     lint_kind: LintKind::Readability,
                     message: format!("This sentence is {} words long.", word_count),
                     ..Default::default()
